@@ -8,6 +8,7 @@ package main
 // `biases`, `decideHandler`, `functionsHandler` are in scope.
 
 import (
+	"bytes"
 	"encoding/binary"
 	"encoding/json"
 	"flag"
@@ -225,7 +226,9 @@ func asL(v interface{}) []interface{} {
 
 func parseReqM(body []byte) M {
 	var m M
-	if err := json.Unmarshal(body, &m); err != nil {
+	dec := json.NewDecoder(bytes.NewReader(body))
+	dec.UseNumber() // keep 64-bit seeds exact
+	if err := dec.Decode(&m); err != nil {
 		panic("harness: request does not parse: " + err.Error())
 	}
 	return m
@@ -494,6 +497,16 @@ func register[C any](prop, name string, weight float64, gen func(t *rapid.T) C, 
 			st.inc("evaluations:" + name)
 			writeCurCase(prop, name, c)
 			if f := judge(c); f != nil {
+				if os.Getenv("VERIF_SURVEY") != "" { // development aid: classify failures instead of stopping
+					d := f.Detail
+					if len(d) > 70 {
+						d = d[:70]
+					}
+					key := "survey:" + name + ":" + f.Rule + ":" + d
+					st.inc(key)
+					st.known(key, string(mustJSON(c)))
+					return
+				}
 				writeReplay(prop, name, c, f)
 				rt.Fatalf("VIOLATION-CANDIDATE property=%s check=%s rule=%s: %s", prop, name, f.Rule, f.Detail)
 			}
